@@ -280,7 +280,12 @@ fn case(m: &mut Mon, r: &mut Rng, _idx: u64) {
         }
         5 | 6 => {
             // rationals: RBig canonical routes, Relaxed non-reduced twins
-            let (n, dn) = (nat(&gen::small_mag(r)), nat(&gen::small_mag(r)) + 1u32);
+            let (n, mut dn) = (nat(&gen::small_mag(r)), nat(&gen::small_mag(r)) + 1u32);
+            if r.chance(1, 3) {
+                // a denominator 2^a 5^b: the value is a finite decimal (binary when b = 0), floats can hold it exactly
+                let (a, b) = (r.usize(40), if r.bool() { 0 } else { r.usize(25) });
+                dn = num_traits::Pow::pow(&BigUint::from(2u8), a) * num_traits::Pow::pow(&BigUint::from(5u8), b);
+            }
             let neg = r.bool();
             let k = nat(&gen::small_mag(r)) + 1u32;
             let q = BigRational::new(int(neg, &limbs_of_nat(&n)), BigInt::from(dn.clone()));
@@ -310,6 +315,40 @@ fn case(m: &mut Mon, r: &mut Rng, _idx: u64) {
                     host.clone_from(&base);
                     out.push(("clone_from".into(), host));
                     out.push(("neg_neg".into(), -(-base.clone())));
+                    // conversions from floats that hold the value exactly (denominator a product of powers of 2 and 5:
+                    // decimal; a power of two: binary and hexadecimal)
+                    let mut dd = xd.clone();
+                    let (mut a2, mut a5) = (0usize, 0usize);
+                    while (&dd % 2u8) == 0u8 && a2 < 400 {
+                        dd /= 2u8;
+                        a2 += 1;
+                    }
+                    while (&dd % 5u8) == 0u8 && a5 < 400 {
+                        dd /= 5u8;
+                        a5 += 1;
+                    }
+                    if dd == UBig::ONE {
+                        let kk = a2.max(a5);
+                        let sig = &xn * IBig::from(UBig::from(2u8).pow(kk - a2) * UBig::from(5u8).pow(kk - a5));
+                        let f10 = FBig::<mode::HalfAway, 10>::from_parts(sig, -(kk as isize));
+                        if let Ok(v) = RBig::try_from(f10.clone()) {
+                            out.push(("try_from(DBig)".into(), v));
+                        }
+                        if let Ok(v) = RBig::try_from(f10.repr().clone()) {
+                            out.push(("try_from(Repr<10>)".into(), v));
+                        }
+                        if a5 == 0 {
+                            let f2 = FBig::<mode::Zero, 2>::from_parts(xn.clone(), -(a2 as isize));
+                            if let Ok(v) = RBig::try_from(f2) {
+                                out.push(("try_from(FBig<2>)".into(), v));
+                            }
+                            let k16 = (a2 + 3) / 4;
+                            let f16 = FBig::<mode::Zero, 16>::from_parts(&xn * IBig::from(UBig::from(2u8).pow(4 * k16 - a2)), -(k16 as isize));
+                            if let Ok(v) = RBig::try_from(f16) {
+                                out.push(("try_from(FBig<16>)".into(), v));
+                            }
+                        }
+                    }
                     out
                 };
                 let rq = catch(|| mk_r(&q, &k, r)).or_else(|p| fail("unexpected_panic", p))?;
@@ -388,6 +427,12 @@ fn case(m: &mut Mon, r: &mut Rng, _idx: u64) {
                     };
                     let a5 = (a4.clone() << 7isize) >> 7isize;
                     let a6 = &a4 * F0::ONE + F0::ZERO;
+                    // in-place shifts there and back (zero must stay the canonical zero, not turn into an infinity)
+                    let mut a7 = a0.clone();
+                    a7 >>= 9isize;
+                    a7 <<= 9isize;
+                    ensure!(a7 == a0 && a7.cmp(&a0) == Ordering::Equal && q_of_repr(a7.repr()) == q_of_repr(a0.repr()) && a7.repr().is_finite(), "eq", "x >>= 9; x <<= 9 changed the value: {:?} -> {:?}", a0.repr(), a7.repr());
+                    fnorm(&a7, "in-place shift round trip")?;
                     let val = q_of_parts(&int(neg, &limbs_of_nat(&sig)), e, $B);
                     ensure!(q_of_repr(a0.repr()) == val && q_of_repr(a1.repr()) == val && q_of_repr(a3.repr()) == val && q_of_repr(a4.repr()) == val && q_of_repr(a5.repr()) == val && q_of_repr(a6.repr()) == val, "route_value", "float routes differ in value");
                     fnorm(&a0, "from_parts")?;
@@ -450,6 +495,12 @@ fn case(m: &mut Mon, r: &mut Rng, _idx: u64) {
                     let (pinf, ninf) = (F0::INFINITY, F0::NEG_INFINITY);
                     ensure!(a0 < pinf && a0 > ninf && ninf < pinf && pinf == F0::INFINITY && ninf == F0::NEG_INFINITY && pinf != ninf && a0 != pinf && a0 != ninf, "inf", "infinity ordering wrong against {}", a0);
                     ensure!(pinf.cmp(&pinf) == Ordering::Equal && ninf.cmp(&ninf) == Ordering::Equal && pinf.cmp(&a0) == Ordering::Greater && ninf.cmp(&a0) == Ordering::Less, "inf", "infinity cmp wrong");
+                    // infinities produced by negation / with_precision / clone are the same values
+                    let (np, nn) = (-pinf.clone(), -ninf.clone());
+                    ensure!(np == ninf && nn == pinf && np.cmp(&ninf) == Ordering::Equal && nn.cmp(&pinf) == Ordering::Equal && np < a0 && nn > a0, "inf", "negated infinities: -(+inf) = {:?}, -(-inf) = {:?}", np.repr(), nn.repr());
+                    let wp = pinf.clone().with_precision(3 + k).value();
+                    ensure!(wp == pinf && wp.cmp(&pinf) == Ordering::Equal && wp > a0, "inf", "+inf with a limited precision is {:?}", wp.repr());
+                    ensure!(-a0.clone() == F0::from_parts(-si.clone(), e as isize) && (-(-a0.clone())) == a0, "eq", "negation route");
                     let _ = a0.repr().significand().bit_len();
                     Ok(())
                 }};
